@@ -158,8 +158,28 @@ def audit(prop, namespaces, modules):
     return rc, thms, out
 
 
+DRIVE_PROCS = 1  # a property module may set DRIVE_PROCS = n: lines of one flush are split over n driver processes
+
+
 def drive(lines):
     """Pipe op lines through the compiled model driver; returns list of output lines."""
+    if not lines:
+        return []
+    if DRIVE_PROCS > 1 and len(lines) >= 2 * DRIVE_PROCS:
+        from concurrent.futures import ThreadPoolExecutor
+        n = DRIVE_PROCS
+        # round-robin so that expensive neighbouring lines are spread over the processes
+        parts = [lines[i::n] for i in range(n)]
+        with ThreadPoolExecutor(n) as ex:
+            outs = list(ex.map(_drive1, parts))
+        merged = [None] * len(lines)
+        for i, o in enumerate(outs):
+            merged[i::n] = o
+        return merged
+    return _drive1(lines)
+
+
+def _drive1(lines):
     if not lines:
         return []
     data = "\n".join(lines) + "\n"
@@ -239,6 +259,9 @@ class Runner:
         self.errors = []
         self.known = load_known(self.prop)
         self.pending = []  # (case, res)
+        self.pending_bytes = 0
+        global DRIVE_PROCS
+        DRIVE_PROCS = int(getattr(mod, "DRIVE_PROCS", 1))
 
     def outcome_class(self, out):
         f = getattr(self.mod, "outcome_class", None)
@@ -281,8 +304,10 @@ class Runner:
         if use_model:
             line = res.get("line", case.get("op"))
             if line is not None:
-                self.pending.append((case, out, line, res.get("expect", out)))
-                if len(self.pending) >= 20000:
+                exp = res.get("expect", out)
+                self.pending.append((case, out, line, exp))
+                self.pending_bytes += len(line) + len(out) + len(exp)
+                if len(self.pending) >= 20000 or self.pending_bytes > 64_000_000:
                     self.flush()
 
     def record_oracle(self, case, out, msg):
@@ -297,6 +322,7 @@ class Runner:
         if not self.pending:
             return
         pend, self.pending = self.pending, []
+        self.pending_bytes = 0
         outs = drive([p[2] for p in pend])
         for (case, out, line, expect), mo in zip(pend, outs):
             if mo != expect:
